@@ -17,6 +17,7 @@ RULE = ("Hypothesis: well-formed notes on 2 channels over 2-3 pitches (same pitc
         "Non-trivial: a note crosses a boundary or an event sits exactly on a boundary. Distinct by case digest.")
 RULE = RULE + " Rounds e-g: rests written as two WAITs, several control changes per tick, SEQUENCE_CONTROL noise, channel pools, silent notes, far tick shifts, self-concatenated inputs split at their period."
 RULE = RULE + " Round h: the source was split before with other capacities."
+RULE = RULE + " Round i: source quantised (bare call) after its relative view was read; late notes."
 ASSUMPTIONS = ["an event exactly on a boundary may be in either adjacent piece (same absolute tick)"]
 TIERS = {"quick": dict(shards=8, examples=1500, alt_ppqn=[480], alt_shards=2),
          "thorough": dict(fuzz_runs=20000, fuzz_shards=4, size=2, shards=16, examples=25000, alt_ppqn=[480, 7, 1000], alt_shards=2)}
@@ -51,10 +52,13 @@ def _case(draw, size=1):
         caps.append(d - sum(caps))
     if spec.get("double") and draw(st.booleans()):
         caps = [max(1, d)] if draw(st.booleans()) else [max(1, d), max(1, d)]
+    gens.late_notes(draw, spec, one_in=8)
     sh = gens.far_shift(draw, spec)
     if sh and caps:
         caps[0] += sh          # the content sits far from tick 0; boundaries keep their place relative to it
     case = {"seq": spec, "caps": caps}
+    if draw(st.integers(0, 7)) == 0:
+        case["pre_quantise"] = draw(st.sampled_from([[4], [6], [12, 8], [3]]))
     if draw(st.integers(0, 4)) == 0:
         case["pre_caps"] = draw(st.lists(st.integers(1, 60), min_size=0, max_size=3))
     return case
@@ -72,6 +76,21 @@ def check(case):
     if built is None:
         return out
     seq, ev0, d0, notes0 = built
+    if case.get("pre_quantise"):
+        # history: the relative view is read, then the bare quantise() runs on the absolute side; what the absolute view holds
+        # afterwards is the music that is split
+        out.label("quantised-before")
+        try:
+            _ = seq.rel
+            seq.quantise(list(case["pre_quantise"]))
+            ev0, d0 = O.abs_events(seq._abs) if not seq._abs_stale else O.seq_events(seq)
+            notes0, an0 = O.notes(ev0)
+        except Exception as e:
+            out.inconclusive = f"pre-quantise-raised:{type(e).__name__}"
+            return out
+        if an0 or O.overlaps(notes0):
+            out.inconclusive = "pre-quantise-left-ill-formed-content"
+            return out
     bset = set()
     acc = 0
     for c in caps:
